@@ -40,10 +40,27 @@ let parse (s : string) : sch list * sch list list =
   let os = ops () in
   (ss, os)
 
+(* `canon i:name i:name ...` -> `C <canonical name> // <indices of the dropped members>` (Model/Dedup.v) *)
+let rec nat_of_int (i : int) : nat = if i <= 0 then O else S (nat_of_int (i - 1))
+let rec int_of_nat = function O -> 0 | S n -> 1 + int_of_nat n
+let chars (s : string) : char list = List.init (String.length s) (String.get s)
+let str (l : char list) : string = String.concat "" (List.map (String.make 1) l)
+let canon (line : string) : string =
+  let toks = List.filter (fun t -> t <> "") (String.split_on_char ' ' line) in
+  let g = List.map (fun t -> match String.index_opt t ':' with
+      | Some k -> (nat_of_int (int_of_string (String.sub t 0 k)), chars (String.sub t (k + 1) (String.length t - k - 1)))
+      | None -> failwith "bad candidate") (List.tl toks) in
+  match canonical g with
+  | None -> "C - //"
+  | Some (_, n) -> "C " ^ str n ^ " // " ^ String.concat " " (List.map (fun (i, _) -> string_of_int (int_of_nat i)) (doomed g))
+
 let () =
   try
     while true do
       let line = input_line stdin in
+      if String.length line >= 6 && String.sub line 0 6 = "canon " then
+        (try print_endline (canon line) with Failure e -> print_endline ("ERR " ^ e))
+      else
       (try
         let (ss, os) = parse line in
         let (r, closed) = reach ss os in
